@@ -59,12 +59,24 @@ func init() {
 			jobs = append(jobs, Job{Pkg: nodePkg, Fn: "VF_C20_Adapt", Opts: opts, Tag: fmt.Sprintf("adapt nm=%d", nm), Case: "adapt",
 				Params: map[string]string{"nm": strconv.Itoa(nm), "tag": "c20"}})
 		}
+		// hot-node half of the reinitialisation itself: a node reinitialised from a dump of the board ends where a node that
+		// followed the board live ends
+		lens := []int{3, 5}
+		if cr.Tier == "thorough" {
+			lens = []int{1, 2, 3, 4, 5}
+		}
+		for _, ids := range []string{"empty", "distinct"} {
+			for _, l := range lens {
+				jobs = append(jobs, Job{Pkg: nodePkg, Fn: "VF_C20_Replay", Opts: opts, Tag: fmt.Sprintf("replay ids=%s len=%d", ids, l), Case: "replay",
+					Params: map[string]string{"ids": ids, "len": strconv.Itoa(l), "blob_axioms": "1", "blob_distinct": "1", "clock_window_s": "3600", "tag": fmt.Sprintf("c20r_%s_%d", ids, l)}})
+			}
+		}
 		res := cr.Pool.Run(jobs)
 		cr.absorb(jobs, res)
 		cr.samples = append(cr.samples, map[string]interface{}{"hash_fields_checked": c20Fields(2, 2)})
-		cr.explanation = "Hash: CalcStartReInitDKGMessageHash executed from SSA on two reinit files that differ in exactly one field (every field in turn), byte strings as unbounded SMT sequences, SHA-1 uninterpreted and assumed collision-free; determinism by re-hashing. Adaptation: GetAdaptedReDKG/createMessage on symbolic 0.1.4-style logs against a reference walk. The node/airgapped replay part of C20 (same share after reinit) rests on kyber determinism and is outside the claim."
+		cr.explanation = "Hash: CalcStartReInitDKGMessageHash executed from SSA on two reinit files that differ in exactly one field (every field in turn), byte strings as unbounded SMT sequences, SHA-1 uninterpreted and assumed collision-free; determinism by re-hashing. Adaptation: GetAdaptedReDKG/createMessage on symbolic 0.1.4-style logs against a reference walk. Replay: a node that receives the reinit message built from a log (opening proposal, both confirmations, both commitments; n=2; symbolic timestamps and commitment bytes; message ids all empty, as a Kafka board and the airgapped machine produce them, or pairwise distinct) ends in the same public round state as a node that followed the log live, and the reinit operation carries exactly the operations the live node produced. The airgapped half (same share after reinit) rests on kyber determinism and is outside the claim."
 		cr.bounds["adapt_log"] = fmt.Sprintf("1..%d messages, three participants (any sender, any other recipient), each message a deal or a commit confirmation with symbolic fields", maxm)
-		cr.bounds["outside"] = "multi-field edits (concatenation without separators collides by construction; the statement quantifies over single-field edits); reinitDKG/handleReinitDKG replay (kyber determinism)"
+		cr.bounds["outside"] = "multi-field edits (concatenation without separators collides by construction; the statement quantifies over single-field edits); handleReinitDKG on the airgapped machine (kyber determinism); logs beyond the commitments phase; log written more than an hour before the run or a run longer than an hour (deadlines are days)"
 		cr.assume = append(cr.assume, "SHA-1 collision-free (stated assumption)", "decimal formatting injective", "uuid fresh")
 		cr.trusted = append(cr.trusted, "gosx SSA->SMT executor", "z3 4.8.12 sequence theory")
 	}}
